@@ -419,8 +419,15 @@ class Ctx:
         ev = {'property_id': self.prop, 'tier': self.tier, 'seed': int(self.seed), 'level': level,
               'coverage': cov, 'assumptions': self.assumptions, 'wall_s': round(wall, 2),
               'violations': len(self.violations)}
-        os.makedirs(os.path.join(VERIF, 'evidence'), exist_ok=True)
-        with open(os.path.join(VERIF, 'evidence', self.prop + '.json'), 'w') as f:
+        # evidence/<id>.json describes runs against /repo itself; a run pointed at another tree through
+        # KAWIN_REPO (development, seeded changes) keeps its record in the scratch directory
+        if os.path.realpath(REPO) == '/repo':
+            evpath = os.path.join(VERIF, 'evidence', self.prop + '.json')
+        else:
+            evpath = os.path.join(self.build, 'evidence_' + self.prop + '.json')
+            ev['repo'] = REPO
+        os.makedirs(os.path.dirname(evpath), exist_ok=True)
+        with open(evpath, 'w') as f:
             json.dump(ev, f, indent=1, default=str)
         for kid, what in self.known_hits:
             print('KNOWN-FINDING: property=%s %s [%s]' % (self.prop, what, kid))
